@@ -931,10 +931,10 @@ def run():
                'parts': {'checkpoint_cases': len(acases), 'constants_cases': len(bcases), 'driver_histories': len(dcases)}},
         uncovered=['HDF5 / file-system crash behaviour and real MPI-IO are outside the model',
                    'constants printer/parser (print_parse_roundtrip, parse_order_independent) is tested, not proved',
-                   'diagnostic rows: one row per time is proved for runs that end on a save step (run_rows_aligned, '
-                   'rows_each_time_once) and equality with the uninterrupted run when every stop time is a multiple of '
-                   'saveStep (restart_equiv_lines_aligned); for other stop times the property is REFUTED by the faithful '
-                   'model (restart_equiv_lines_refuted, final_window_lines_refuted) and reported as findings',
+                   'diagnostic rows: one row per time is proved for every uninterrupted run and for runs stopped at '
+                   'multiples of saveStep and restarted (run_rows, rows_each_time_once, restart_equiv_lines_aligned, '
+                   'restart_aligned_rows_each_time_once); for restarts from other stop times the property is REFUTED by the '
+                   'faithful model (restart_equiv_lines_refuted, ..._missing_row_refuted, ..._zero_row_refuted): known finding',
                    'true-physics split-vs-unsplit equality is sampled (thorough tier), the model takes step as a function'])
 
 
